@@ -1,6 +1,7 @@
 package gen
 
 import (
+	"fmt"
 	"math/rand/v2"
 	"strings"
 )
@@ -12,18 +13,39 @@ import (
 var wsForms = []string{"", "", "", " ", " ", "\n", "\t", "\r\n", "  ", " \n\t ", "\n\n"}
 
 // Relayout inserts random insignificant whitespace before and after the structural characters of a JSON text
-// (outside strings). The token sequence, and every token's bytes, stay the same.
+// (outside strings). The token sequence stays the same; in one document out of three some ASCII letters, digits and
+// '/' inside strings (keys and values alike) are written as \uXXXX escapes or '\/', which spell the same strings (RFC 8259 section 7).
 func Relayout(r *rand.Rand, text string) string {
 	var sb strings.Builder
 	sb.WriteString(Pick(r, wsForms))
 	inStr, esc := false, false
+	escapes := r.IntN(3) == 0
+	hexLeft := 0 // digits of a \uXXXX escape still to copy
 	for i := 0; i < len(text); i++ {
 		ch := text[i]
 		if inStr {
+			if hexLeft > 0 {
+				hexLeft--
+				sb.WriteByte(ch)
+				continue
+			}
+			if escapes && !esc && r.IntN(6) == 0 && (ch >= 'a' && ch <= 'z' || ch >= 'A' && ch <= 'Z' || ch >= '0' && ch <= '9' || ch == '/' || ch == '$' || ch == '#') {
+				if ch == '/' && r.IntN(2) == 0 {
+					sb.WriteString("\\/")
+				} else if r.IntN(2) == 0 {
+					fmt.Fprintf(&sb, "\\u%04x", ch)
+				} else {
+					fmt.Fprintf(&sb, "\\u%04X", ch)
+				}
+				continue
+			}
 			sb.WriteByte(ch)
 			switch {
 			case esc:
 				esc = false
+				if ch == 'u' {
+					hexLeft = 4
+				}
 			case ch == '\\':
 				esc = true
 			case ch == '"':
